@@ -59,11 +59,11 @@ theorem mrRoundFast_eq (n d c r : Nat) (hn : 0 < n) : mrRoundFast n d c r = mrRo
 /-- for a prime n > 2 no sequence of draws makes a round fail -/
 theorem rounds_prime (p : Nat) [hp : Fact p.Prime] (hp2 : 2 < p) (d c : Nat)
     (hdc : splitTwos p (p - 1) 0 = (d, c)) (k : Nat) (s : NTV.Draw.Stream) :
-    rounds p d c k s ≠ some false := by
+    ∀ rest, roundsS p d c k s ≠ some (false, rest) := by
   induction k generalizing s with
-  | zero => simp [rounds]
+  | zero => simp [roundsS]
   | succ k ih =>
-    simp only [rounds]
+    simp only [roundsS]
     split
     · simp
     · rename_i r s' hdraw
